@@ -691,6 +691,8 @@ class LogicalLinkController(object):
                 log.debug("can't dispatch PDU %s", rcvd_pdu)
 
     def resolve(self, name):
+        if self.sap[1] is None:
+            return None  # link terminated
         if isinstance(name, (bytes, bytearray)):
             return self.sap[1].resolve(bytes(name))
         return self.sap[1].resolve(name.encode('latin'))
